@@ -74,6 +74,13 @@ def classify_loop(fn, loop):
                         local_arrays.add(name)
                 elif any(private_index(x) for x in items) and all(not isinstance(x, ast.Slice) for x in items):
                     cursors[name] = unparse(val.value)
+        if isinstance(n, ast.Assign) and len(n.targets) == 1 and isinstance(n.targets[0], ast.Tuple) and isinstance(n.value, ast.Subscript):
+            # j1, j2, j3 = T[v]: every unpacked scalar is a private cursor read from the iteration's own row
+            items = n.value.slice.elts if isinstance(n.value.slice, ast.Tuple) else [n.value.slice]
+            if any(private_index(x) for x in items) and all(not isinstance(x, ast.Slice) for x in items):
+                for e in n.targets[0].elts:
+                    if isinstance(e, ast.Name):
+                        cursors[e.id] = unparse(n.value.value)
         if isinstance(n, ast.For) and isinstance(n.target, ast.Name) and isinstance(n.iter, ast.Call) \
                 and dotted(n.iter.func) == 'range' and len(n.iter.args) == 2:
             lo, hi = n.iter.args
